@@ -1,6 +1,7 @@
 """C20 check configuration (see lib/props.py for the field meanings)."""
 
 PROP = {
+    "thorough_scale": 4,
     "pkg": "internal/querylog",
     "files": ["querylog/c20_gen_test.go", "querylog/c20_file_test.go", "querylog/c20_reader_test.go"],
     "level": "exploration",
